@@ -134,7 +134,9 @@ LAYOUTS = {
 
 def values_for(size, seed):
     if isinstance(size, int):
-        return [0, 1]
+        # a bit is written by truth value: flags masked out of a status
+        # byte and counters are ordinary sources
+        return [0, 1, 0x10, 2, 0x80, 0x100]
     bits = SIZES[size] * 8
     import random
     rnd = random.Random(seed * 131 + bits + size.islower())
@@ -486,8 +488,8 @@ def work(item, res):
     if quick:
         doms = [d[:5] for d in doms]
     # constants: bits both ways; integers extreme, zero, sign/top bit, seeded
-    const_sets = [[1, 0, 1, 0] if len(d) == 2 else
-                  [d[2], d[0], d[3], d[-1]] for d in doms]
+    const_sets = [[1, 0, 0x10, 2] if isinstance(VARS[n][2], int) else
+                  [d[2], d[0], d[3], d[-1]] for n, d in zip(names, doms)]
     nconst = 1 if "writec" not in ops else (2 if quick else 4)
     for ci in range(nconst):
         consts = tuple(cs[ci] for cs in const_sets)
@@ -542,7 +544,8 @@ def run(ctx):
         "struct refuses others); formats are the integer formats B H I Q "
         "b h i q; the command byte and working counter of write datagrams, "
         "which the group program's activation owns, are not compared",
-        "a value read from a bit is compared as 0/1",
+        "a value read from a bit is compared as 0/1; a bit written with any "
+        "non-zero value (1, 2, 0x10, 0x80, 0x100) is set, with 0 cleared",
     ]
     return res
 
